@@ -47,6 +47,19 @@ Proof.
   - unfold alloc. apply Forall_app. split; auto. repeat constructor; apply zero_in_range.
 Qed.
 
+(** ERROR PATHS (round 5).  The events of the model are the individual STORES, not the calls: a call that raises half-way
+    (a bad second component, an iterator that fails, a body that raises inside transform()) has executed a PREFIX of the
+    stores it would have made and the caller carries on with what is left behind.  The invariant holds after every such
+    prefix, whatever the skipped stores would have been - there is no store that is "repaired later" by another one. *)
+Corollary angle_range_after_interrupted_call sites : all_sites_safe sites = true ->
+  forall done skipped st, Forall in_range st -> finite_inputs done -> Forall in_range (run sites done st) /\
+    (finite_inputs skipped -> Forall in_range (run sites (done ++ skipped) st)).
+Proof.
+  intros Hs d k st Hst Hd. split.
+  - apply angle_range_invariant; auto.
+  - intros Hk. apply angle_range_invariant; auto. unfold finite_inputs in *. apply Forall_app. split; assumption.
+Qed.
+
 (** A single-modulo site breaks the invariant: one store of -1e-14 leaves exactly 360.0 in the slot. *)
 Theorem single_site_refuted :
   exists es, finite_inputs es /\
